@@ -362,7 +362,7 @@ def parse_lines(out):
 
 def correspondence(ctx, label, kinds, spec_map, items):
     """returns list of (case, impl, model) differences, or None when the model could not be evaluated"""
-    usable = [(c, r) for (c, r) in items if r not in ("NOHOOK", "NOT-UTF8", "BAD-VALUE", "BAD-SPEC", "BAD-VERSION", "NO-SUCH-ITEM", "UNKNOWN-CASE")]
+    usable = [(c, r) for (c, r) in items if not r.startswith("NOMODEL") and r not in ("NOHOOK", "NOT-UTF8", "BAD-VALUE", "BAD-SPEC", "BAD-VERSION", "NO-SUCH-ITEM", "UNKNOWN-CASE")]
     res, err = model_eval(ctx, kinds, usable, spec_map)
     if res is None:
         ctx.oblige("correspondence:%s(model evaluation)" % label, False, err)
@@ -447,7 +447,7 @@ def run(tier, seed, replay_cases=None):
         # failures on texts of the lexical forms first (they are the clearest witnesses)
         order = {"integer-exact": 0, "float-prefixed": 0, "bool": 0, "float-special": 0, "float-zero": 0, "format-parse": 0,
                  "integer-from-u64": 0, "float-from-u64": 0, "u64-print-parse": 0,
-                 "to-string-roundtrip": 0, "serialize-roundtrip": 0}
+                 "to-string-roundtrip": 0, "serialize-roundtrip": 0, "xml-string-roundtrip": 0}
         unknown_fails.sort(key=lambda l: order.get(l.split(" ")[1], 1))
         prop_fail += unknown_fails
         ctx.coverage["oracle_failures_in_known_classes"] = {k: len(v) for k, v in known_hits.items()}
